@@ -984,3 +984,278 @@ Proof.
         -- destruct HI as [<-|[]]. unfold key_node; cbn; apply nid_eta.
       * destruct HI as [<-|[]]. unfold key_node; cbn; apply nid_eta.
 Qed.
+
+(* ---------- SaveRaftState: the relation over an abstract read function ---------- *)
+
+Definition gfun := key -> option value.
+Definition gapply (w : wb) (g : gfun) : gfun :=
+  fun k => match wb_last w k with Some r => r | None => g k end.
+
+Lemma gapply_app : forall a b g k, gapply (a ++ b) g k = gapply b (gapply a g) k.
+Proof. intros. unfold gapply. rewrite wb_last_app. now destruct (wb_last b k). Qed.
+
+Lemma get_commit_g : forall w m k, sorted m -> kv_get (kv_commit m w) k = gapply w (kv_get m) k.
+Proof. intros. unfold gapply. now apply get_commit. Qed.
+
+Record RnG (g : gfun) (cn : cnode) (nd : rnode) (n : nid) : Prop := mkRnG {
+  g_contig : contig (n_marker nd + 1) (n_ents nd);
+  g_ents : forall e, In e (n_ents nd) -> g (KEntry n (e_index e)) = Some (VEntry e);
+  g_max : g (KMaxIndex n) = Some (VMax (n_last nd)) \/ (g (KMaxIndex n) = None /\ n_last nd = 0);
+  g_cmax : forall v, c_max cn = Some v -> v = n_last nd;
+  g_state : g (KState n) = option_map VState (n_st nd);
+  g_cstate : forall st, c_state cn = Some st -> n_st nd = Some st;
+  g_snap_hi : forall i, n_ssidx nd < i -> g (KSnapshot n i) = None;
+  g_snap : match n_ss nd with
+           | Some ss => g (KSnapshot n (ss_index ss)) = Some (VSnap ss) /\ 0 < ss_index ss
+           | None => forall i, g (KSnapshot n i) = None
+           end;
+  g_csnap : forall v, c_snap cn = Some v -> v <= n_ssidx nd;
+  g_ssb : n_ssidx nd < max_index;
+  g_lastb : n_last nd < max_index
+}.
+
+Lemma Rn_G : forall m cn nd n, Rn m cn nd n <-> RnG (kv_get m) cn nd n.
+Proof. intros. split; intros H; destruct H; constructor; auto. Qed.
+
+Lemma RnG_ext : forall g g' cn nd n, RnG g cn nd n ->
+  (forall k, key_node k = n -> g' k = g k) -> RnG g' cn nd n.
+Proof.
+  intros g g' cn nd n H HF. destruct n as [sh re].
+  assert (forall k, key_node k = (sh, re) -> g' k = g k) as HF' by auto.
+  destruct H. constructor; auto.
+  - intros e HI. rewrite HF' by reflexivity. auto.
+  - rewrite !HF' by reflexivity. auto.
+  - rewrite HF' by reflexivity. auto.
+  - intros i Hi. rewrite HF' by reflexivity. auto.
+  - destruct (n_ss nd).
+    + rewrite HF' by reflexivity. auto.
+    + intros i. rewrite HF' by reflexivity. auto.
+Qed.
+
+Lemma st_eqb_eq : forall a b, st_eqb a b = true -> a = b.
+Proof.
+  intros [a1 a2 a3] [b1 b2 b3]. unfold st_eqb; cbn. rewrite !andb_true_iff, !N.eqb_eq.
+  intros [[-> ->] ->]. reflexivity.
+Qed.
+
+Lemma cupd_same : forall c n v, cupd c n v n = v.
+Proof. intros. unfold cupd. now rewrite nid_eqb_refl. Qed.
+Lemma cupd_other : forall c n v m, m <> n -> cupd c n v m = c m.
+Proof. intros. unfold cupd. now rewrite nid_eqb_neq. Qed.
+
+(* stage 1: the hard state *)
+Definition state_part (c : cache) (n : nid) (st : hstate) : cache * wb :=
+  if st_emptyb st then (c, [])
+  else let (c', changed) := cs_set_state c n st in
+       (c', if changed then [WPut (KState n) (VState st)] else []).
+
+Lemma stage_state : forall g c nd n st, RnG g (c n) nd n ->
+  let (c1, w1) := state_part c n st in
+  RnG (gapply w1 g) (c1 n) (upd_st_step nd st) n /\
+  (forall n', n' <> n -> c1 n' = c n') /\
+  (forall o, In o w1 -> o = WPut (KState n) (VState st)).
+Proof.
+  intros g c nd n st H. unfold state_part, upd_st_step.
+  destruct (st_emptyb st) eqn:E.
+  - split; [|split]; auto; try contradiction.
+  - unfold cs_set_state.
+    assert (HP : RnG (gapply [WPut (KState n) (VState st)] g)
+                   (mkC (Some st) (c_max (c n)) (c_snap (c n)) (c_batch (c n)))
+                   (mkNode (n_marker nd) (n_mterm nd) (n_ents nd) (Some st) (n_ss nd)) n).
+    { assert (HO : forall k, k <> KState n -> gapply [WPut (KState n) (VState st)] g k = g k).
+      { intros k Hk. unfold gapply. cbn [wb_last wkey]. now rewrite key_eqb_neq. }
+      destruct H. constructor; cbn [n_marker n_mterm n_ents n_st n_ss c_state c_max c_snap]; auto.
+      unfold gapply. cbn [wb_last wkey]. now rewrite key_eqb_refl. }
+    destruct (c_state (c n)) as [v|] eqn:EC.
+    + destruct (st_eqb v st) eqn:EV.
+      * apply st_eqb_eq in EV. subst v. split; [|split]; auto; try contradiction.
+        pose proof (g_cstate _ _ _ _ H st EC) as HS.
+        assert (mkNode (n_marker nd) (n_mterm nd) (n_ents nd) (Some st) (n_ss nd) = nd) as ->
+          by (destruct nd; cbn in *; now subst).
+        exact H.
+      * rewrite cupd_same. split; [|split]; auto.
+        -- intros n' Hn'. now apply cupd_other.
+        -- intros o [<-|[]]. reflexivity.
+    + rewrite cupd_same. split; [|split]; auto.
+      * intros n' Hn'. now apply cupd_other.
+      * intros o [<-|[]]. reflexivity.
+Qed.
+
+Lemma snap_clauses_g : forall (g g' : gfun) n (cur : option snapshot) ss,
+  (forall i, oidx cur < i -> g (KSnapshot n i) = None) ->
+  (match cur with
+   | Some c => g (KSnapshot n (ss_index c)) = Some (VSnap c) /\ 0 < ss_index c
+   | None => forall i, g (KSnapshot n i) = None end) ->
+  oidx cur < max_index ->
+  g' (KSnapshot n (ss_index ss)) = Some (VSnap ss) ->
+  (forall i, ss_index ss < i -> g' (KSnapshot n i) = g (KSnapshot n i)) ->
+  0 < ss_index ss < max_index ->
+  (ss_index ss = oidx cur -> cur = Some ss) ->
+  let cur' := if oidx cur <? ss_index ss then Some ss else cur in
+  (forall i, oidx cur' < i -> g' (KSnapshot n i) = None) /\
+  (match cur' with
+   | Some c => g' (KSnapshot n (ss_index c)) = Some (VSnap c) /\ 0 < ss_index c
+   | None => forall i, g' (KSnapshot n i) = None end) /\
+  oidx cur' < max_index.
+Proof.
+  intros g g' n cur ss Hhi Hs Hb G1 G3 HS Heq cur'. subst cur'.
+  destruct (oidx cur <? ss_index ss) eqn:E.
+  - apply N.ltb_lt in E. cbn [oidx]. repeat split; auto; try lia.
+    intros i Hi. rewrite G3 by lia. apply Hhi. lia.
+  - apply N.ltb_ge in E. destruct cur as [c|]; [|cbn in E; lia]. cbn [oidx] in *.
+    destruct Hs as [Hs Hp]. repeat split; auto.
+    + intros i Hi. rewrite G3 by lia. apply Hhi. lia.
+    + destruct (N.eq_dec (ss_index ss) (ss_index c)) as [X|X].
+      * specialize (Heq X). inversion Heq; subst. auto.
+      * rewrite G3 by lia. auto.
+Qed.
+
+(* stage 2: the snapshot carried by the update *)
+Definition snap_part (m : kv) (c : cache) (n : nid) (ss : snapshot) (es : list entry) : option (cache * wb) :=
+  if ss_emptyb ss then Some (c, [])
+  else
+    let (c2, ok) := cs_try_save_snapshot c n (ss_index ss) in
+    if ok then
+      if negb (match es with [] => true | _ => false end) && (last_index es <? ss_index ss)
+      then None
+      else match save_snapshot_wb m n ss with
+           | None => None
+           | Some w2 => Some (cs_set_max_index c2 n (ss_index ss),
+                              w2 ++ [WPut (KMaxIndex n) (VMax (ss_index ss))])
+           end
+    else Some (c2, []).
+
+Lemma save_head_parts : forall m c u,
+  save_head m c u =
+  let (c1, w1) := state_part c (u_node u) (u_st u) in
+  match snap_part m c1 (u_node u) (u_ss u) (u_ents u) with
+  | None => None
+  | Some (c', w) => Some (c', w1 ++ w)
+  end.
+Proof.
+  intros m c u. unfold save_head, state_part, snap_part.
+  destruct (st_emptyb (u_st u)).
+  - destruct (ss_emptyb (u_ss u)); [reflexivity|].
+    destruct (cs_try_save_snapshot c (u_node u) (ss_index (u_ss u))) as [c2 ok]. destruct ok; [|reflexivity].
+    destruct (negb _ && _); [reflexivity|]. now destruct (save_snapshot_wb m (u_node u) (u_ss u)).
+  - destruct (cs_set_state c (u_node u) (u_st u)) as [c' ch].
+    destruct (ss_emptyb (u_ss u)); [now rewrite app_nil_r|].
+    destruct (cs_try_save_snapshot c' (u_node u) (ss_index (u_ss u))) as [c2 ok]. destruct ok; [|now rewrite app_nil_r].
+    destruct (negb _ && _); [reflexivity|]. now destruct (save_snapshot_wb m (u_node u) (u_ss u)).
+Qed.
+
+Lemma nlen_nil_last : forall nd, n_ents nd = [] -> n_last nd = n_marker nd.
+Proof. intros nd H. unfold n_last. rewrite H. unfold nlen. cbn. lia. Qed.
+
+Lemma stage_snap : forall m g c nd n ss es, sorted m -> WT m ->
+  RnG g (c n) nd n ->
+  (forall i, g (KSnapshot n i) = kv_get m (KSnapshot n i)) ->
+  upd_ss_wf nd ss = true ->
+  (ss_emptyb ss = false -> es <> [] -> ss_index ss <= last_index es) ->
+  exists c' w, snap_part m c n ss es = Some (c', w) /\
+    RnG (gapply w g) (c' n) (upd_ss_step nd ss) n /\
+    (forall n', n' <> n -> c' n' = c n') /\
+    (forall o, In o w -> key_node (wkey o) = n) /\
+    (forall k v, In (WPut k v) w -> wt k v).
+Proof.
+  intros m g c nd n ss es HS HW H Hg Hwf Hes. unfold snap_part, upd_ss_step. unfold upd_ss_wf in Hwf.
+  destruct (ss_emptyb ss) eqn:E.
+  { exists c, []. split; [reflexivity|]. split; [exact H|]. split; [auto|]. split; intros; contradiction. }
+  cbn [orb] in Hwf. rewrite !andb_true_iff in Hwf. destruct Hwf as ((W1 & W2) & W3).
+  apply N.ltb_lt in W1. apply N.leb_le in W2.
+  assert (0 < ss_index ss) as Hpos by (unfold ss_emptyb in E; apply N.eqb_neq in E; lia).
+  pose proof max_index_u64 as HU.
+  assert (Hcase : (n_ssidx nd < ss_index ss /\ n_last nd <= ss_index ss) \/
+                  (n_ss nd = Some ss /\ ss_index ss = n_last nd)).
+  { apply orb_true_iff in W3. destruct W3 as [W3|W3].
+    - apply andb_true_iff in W3. destruct W3 as [A B]. apply N.ltb_lt in A. apply N.leb_le in B. now left.
+    - apply andb_true_iff in W3. destruct W3 as [A B]. apply N.eqb_eq in B.
+      destruct (n_ss nd); [|discriminate]. apply ss_eqb_eq in A. subst. now right. }
+  assert (Heq : ss_index ss = n_ssidx nd -> n_ss nd = Some ss).
+  { intros X. destruct Hcase as [[A _]|[A _]]; [lia | exact A]. }
+  assert (Hlast : n_last nd <= ss_index ss) by (destruct Hcase as [[_ A]|[_ A]]; lia).
+  unfold cs_try_save_snapshot.
+  (* the node after the step *)
+  set (nd' := mkNode (ss_index ss) (ss_term ss) [] (n_st nd)
+                (if n_ssidx nd <? ss_index ss then Some ss else n_ss nd)).
+  assert (Hssidx' : n_ssidx nd' = if n_ssidx nd <? ss_index ss then ss_index ss else n_ssidx nd).
+  { unfold n_ssidx at 1. subst nd'. cbn [n_ss]. now destruct (n_ssidx nd <? ss_index ss). }
+  assert (Hlast' : n_last nd' = ss_index ss) by (unfold n_last, nlen; subst nd'; cbn [n_marker n_ents length]; lia).
+  (* the case in which the record is written *)
+  assert (HOK : forall c2, c2 n = mkC (c_state (c n)) (c_max (c n)) (c_snap (c2 n)) (c_batch (c n)) ->
+              (forall v, c_snap (c2 n) = Some v -> v <= n_ssidx nd') ->
+              (forall n', n' <> n -> c2 n' = c n') ->
+    exists c' w,
+      (if negb (match es with [] => true | _ => false end) && (last_index es <? ss_index ss) then None
+       else match save_snapshot_wb m n ss with
+            | None => None
+            | Some w2 => Some (cs_set_max_index c2 n (ss_index ss), w2 ++ [WPut (KMaxIndex n) (VMax (ss_index ss))])
+            end) = Some (c', w) /\
+      RnG (gapply w g) (c' n) nd' n /\ (forall n', n' <> n -> c' n' = c n') /\
+      (forall o, In o w -> key_node (wkey o) = n) /\ (forall k v, In (WPut k v) w -> wt k v)).
+  { intros c2 HC2 HV HO2.
+    assert ((negb (match es with [] => true | _ => false end) && (last_index es <? ss_index ss)) = false) as ->.
+    { destruct es as [|e0 es']; [reflexivity|]. cbn [negb andb]. apply N.ltb_ge. apply Hes; auto. discriminate. }
+    destruct (list_snapshots_spec m n HS HW) as (l & HL & Hl).
+    rewrite (save_snapshot_wb_some _ _ _ l HL E).
+    set (w2 := _ ++ [WPut (KSnapshot n (ss_index ss)) _]).
+    destruct (snap_wb_effect m n ss l HS HW HL Hl ltac:(lia)) as (E1 & E2 & E3). fold w2 in E1, E2, E3.
+    eexists. eexists. split; [reflexivity|].
+    set (w := w2 ++ [WPut (KMaxIndex n) (VMax (ss_index ss))]).
+    assert (LW : forall k, k <> KMaxIndex n -> wb_last w k = wb_last w2 k).
+    { intros k Hk. subst w. rewrite wb_last_app. cbn [wb_last wkey]. now rewrite key_eqb_neq. }
+    assert (HOth : forall k, k <> KMaxIndex n -> (forall i, k <> KSnapshot n i) -> gapply w g k = g k).
+    { intros k K1 K2. unfold gapply. rewrite LW by auto. rewrite E3; auto. }
+    destruct (snap_clauses_g g (gapply w g) n (n_ss nd) ss) as (C1 & C2 & C3); try (apply H); auto.
+    { unfold gapply. rewrite LW by (intros X; ktags; inversion X). now rewrite E1. }
+    { intros i Hi. unfold gapply. rewrite LW by (intros X; ktags; inversion X).
+      rewrite E3; auto. intros j Hj X. apply KSnapshot_inj in X. lia. }
+    split; [|split; [|split]].
+    - unfold cs_set_max_index. rewrite cupd_same.
+      destruct H. constructor; subst nd'; cbn [n_marker n_mterm n_ents n_st n_ss c_state c_max c_snap]; auto.
+      + exact I.
+      + intros e [].
+      + left. unfold gapply. subst w. rewrite wb_last_app. cbn [wb_last wkey]. rewrite key_eqb_refl.
+        f_equal. f_equal. unfold n_last, nlen. cbn [n_marker n_ents length]. lia.
+      + intros v X. inversion X. unfold n_last, nlen. cbn [n_marker n_ents length]. lia.
+      + rewrite HOth by (intros; intro X; ktags; inversion X). auto.
+      + rewrite HC2. cbn [c_state]. auto.
+      + unfold n_last, nlen. cbn [n_marker n_ents length]. lia.
+    - intros n' Hn'. unfold cs_set_max_index. rewrite cupd_other by auto. auto.
+    - intros o HI. subst w w2. apply in_app_or in HI. destruct HI as [HI|HI].
+      + apply in_app_or in HI. destruct HI as [HI|HI].
+        * apply in_map_iff in HI. destruct HI as (x & <- & HI).
+          apply in_map_iff in HI. destruct HI as (y & <- & _). unfold key_node; cbn; apply nid_eta.
+        * destruct HI as [<-|[]]. unfold key_node; cbn; apply nid_eta.
+      + destruct HI as [<-|[]]. unfold key_node; cbn; apply nid_eta.
+    - intros k v HI. subst w w2. apply in_app_or in HI. destruct HI as [HI|HI].
+      + apply in_app_or in HI. destruct HI as [HI|HI].
+        * apply in_map_iff in HI. destruct HI as (x & X & _). discriminate.
+        * destruct HI as [HI|[]]. inversion HI; subst. unfold wt; ktags; cbn.
+          repeat split; intros X; try discriminate. eauto.
+      + destruct HI as [HI|[]]. inversion HI; subst. unfold wt; ktags; cbn.
+        repeat split; intros X; try discriminate. eauto. }
+  destruct (c_snap (c n)) as [v|] eqn:EC.
+  - destruct (v <? ss_index ss) eqn:EV.
+    + apply N.ltb_lt in EV. apply (HOK c); auto.
+      * rewrite EC. destruct (c n); cbn in *; now subst.
+      * intros v' X. rewrite EC in X. inversion X; subst v'. rewrite Hssidx'.
+        pose proof (g_csnap _ _ _ _ H v EC). destruct (n_ssidx nd <? ss_index ss) eqn:Y; [lia | auto].
+    + apply N.ltb_ge in EV. pose proof (g_csnap _ _ _ _ H v EC) as Hv.
+      destruct Hcase as [[A _]|[A B]]; [lia|].
+      exists c, []. split; [reflexivity|].
+      assert (n_ssidx nd <? ss_index ss = false) as Y by (apply N.ltb_ge; lia).
+      split; [|split; [auto | split; intros; contradiction]].
+      destruct H. constructor; subst nd'; rewrite ?Y in *; cbn [n_marker n_mterm n_ents n_st n_ss]; auto.
+      * exact I.
+      * intros e [].
+      * destruct g_max0 as [X|[_ X]]; [|lia]. left. unfold gapply. cbn [wb_last]. rewrite X. f_equal. f_equal.
+        unfold n_last at 2. unfold nlen. cbn [n_marker n_ents length]. lia.
+      * intros v' X. rewrite (g_cmax0 v' X). unfold n_last at 2. unfold nlen. cbn [n_marker n_ents length]. lia.
+      * unfold n_last, nlen. cbn [n_marker n_ents length]. lia.
+  - apply (HOK (cupd c n (mkC (c_state (c n)) (c_max (c n)) (Some (ss_index ss)) (c_batch (c n))))).
+    + now rewrite cupd_same.
+    + rewrite cupd_same. cbn [c_snap]. intros v' X. inversion X; subst v'. rewrite Hssidx'.
+      destruct (n_ssidx nd <? ss_index ss) eqn:Y; [lia | apply N.ltb_ge in Y; lia].
+    + intros n' Hn'. now apply cupd_other.
+Qed.
